@@ -291,6 +291,21 @@ def _oracle_partition_problem(payload, real, used):
                     return f"bases[{d}] is not the decomposition of the {d}-th spanning gate ({inst.operation.name}{list(inst.operation.params)})"
     except ValueError:
         pass
+    # the two halves of cut d carry the label suffix _d and the basis bases[d]
+    halves = {}
+    for l, c in res["subcircuits"]:
+        for q, seq in c["wires"].items():
+            for name, qs, params, label, basis, half, bid in seq:
+                if name == "qpd_1q":
+                    suf = (label or "").rsplit("_", 1)
+                    if len(suf) != 2 or not suf[1].isdigit():
+                        return f"a placeholder half in partition {l!r} is labelled {label!r}: the cut index suffix is missing"
+                    halves.setdefault(int(suf[1]), []).append((half, basis))
+    if sorted(halves) != list(range(len(res["bases"]))):
+        return f"cut indices on the halves {sorted(halves)} do not match the {len(res['bases'])} recorded bases"
+    for d, hs in halves.items():
+        if sorted(h for h, _ in hs) != [0, 1] or any(b != res["bases"][d] for _, b in hs):
+            return f"cut {d}: halves {hs} do not form one pair over bases[{d}] = {res['bases'][d]}"
     keys = [l for l, _ in res["subcircuits"]]
     if res["subobs"] is not None:
         if sorted(map(repr, [l for l, _ in res["subobs"]])) != sorted(map(repr, keys)):
